@@ -38,7 +38,8 @@ pub async fn copy_with_size<R: AsyncRead, W: AsyncWrite>(
     writer: &mut W,
     buf_size: usize,
 ) -> IoResult<u64> {
-    let mut buf = Vec::with_capacity(buf_size);
+    // A buffer without room would make the first read return 0, which looks like EOF.
+    let mut buf = Vec::with_capacity(buf_size.max(1));
     let mut total = 0u64;
 
     loop {
